@@ -81,7 +81,8 @@ func genC11(dir, tier string, seed int64) {
 			}
 		}
 	}
-	for _, code := range []int64{0, 8, 9, 10, 14, 15, 16, 99, -1} { // unsupported targets
+	// unsupported targets, including codes that equal a supported one modulo 2^32
+	for _, code := range []int64{0, 8, 9, 10, 14, 15, 16, 99, -1, 1<<32 + 1, 1<<32 + 7, 1<<32 + 11, -(1 << 32) + 6, 1 << 33, math.MaxInt64, math.MinInt64 + 1} {
 		x := mkT(tensor.Float32, []int{2}, []int64{1, 2})
 		emitOp(cw, "Cast", []attr{aInt("to", code)}, func() []tensor.Tensor { return cloneAll([]tensor.Tensor{x}) })
 	}
